@@ -5,13 +5,14 @@ CONSTANTS
   DetailNames <- NamesAll
   Mismatches = {"m0", "m1", "m2"}
   Attrs = {"a_exist", "a_missing", "a_none"}
-  Fixtures = {"f_ok", "f_tb", "f_two", "f_bad", "f_cr"}
+  Fixtures = {"f_ok", "f_tb", "f_two", "f_bad", "f_cr", "f_gr"}
   MaxFaults = 99
   MaxSteps = 99
   MaxTotalSteps = 99
   MaxRuns = 1
   AllowDecor = TRUE
   OnExcChoices = {TRUE, FALSE}
+  PreForceChoices = {TRUE, FALSE}
   StepOps = {"upcall", "addCleanup", "addDetail", "expect", "patch", "useFixture"}
   AllowMulti = TRUE
   Variant = "asRequired"
@@ -20,6 +21,7 @@ CONSTANTS
   CleanOf <- MCCleanOf
   FixtureSetUpFails <- MCFixtureSetUpFails
   FixtureCleanKind <- MCFixtureCleanKind
+  FixtureGatherRaises <- MCFixtureGatherRaises
   FixtureDetails <- MCFixtureDetails
   MismatchDetails <- MCMismatchDetails
 CONSTRAINT VerdictC
